@@ -106,8 +106,26 @@ func (in *Interp) assume(c *Term) {
 		}
 		return
 	}
+	if dv := in.domLook(c); dv.single {
+		if dv.decided {
+			if !dv.value {
+				in.assumeKills++
+				panic(&pathEnd{kind: endAssumeFail, msg: "assume infeasible"})
+			}
+			return
+		}
+		if dv.free && in.model.Eval(c) != 1 {
+			// patch the cached model with a value of the variable that satisfies c
+			m := make(map[string]uint64, len(in.model.vals))
+			for k, x := range in.model.vals {
+				m[k] = x
+			}
+			m[dv.x.name] = uint64(dv.t.first())
+			in.model = NewModel(m)
+		}
+	}
 	if in.model.Eval(c) != 1 {
-		verdict, m := in.solver.CheckWith(c, in.tab.vars)
+		verdict, m := in.check(c, true)
 		switch verdict {
 		case Sat:
 			in.model = NewModel(m)
@@ -155,7 +173,7 @@ func rtAssert(in *Interp, fn *ssa.Function, args []value) value {
 			return rtAssert(in, fn, []value{args[0], v == 1})
 		}
 		if fresh {
-			verdict, m := in.solver.CheckWith(in.tab.Not(c), in.tab.vars)
+			verdict, m := in.check(in.tab.Not(c), true)
 			switch verdict {
 			case Sat:
 				st.Violated++
